@@ -290,4 +290,36 @@ def check(ctx, R):
     from . import c04 as _c04
     R.run("C14.e", lambda R, c: _c04.rule_e(R, c, "C14.e"), ctx)
     R.run("C14.h", rule_rel, ctx)
+    R.run("C14.i", rule_serde_width, ctx)
     return extra
+
+
+def rule_serde_width(R, ctx, rid="C14.i"):
+    """The serde form of a client id reads the scalar type it writes."""
+    import re as _re
+    Y = ctx.yrs
+    R.rule(rid, "R-SIB the serde form of ClientID — what the JSON form of an ID, and so of a StickyIndex, is made of — writes the "
+                "value of ClientID::get with the Serialize impl of one scalar type and reads it back with the Deserialize impl of the "
+                "SAME type, handing the read value to ClientID::new as it is: client ids are 53-bit, a narrower reader rejects cursors "
+                "anchored to elements of most real replicas")
+    ser = Y.fn("<yrs::block::ClientID as yrs::block::_::_serde::Serialize>::serialize")
+    de = Y.fn("<yrs::block::ClientID as yrs::block::_::_serde::Deserialize>::deserialize")
+    vs, vd = FnView(ser), FnView(de)
+    w = [(c, _re.match(r"^<(\w+) as .*Serialize>::serialize$", c.name)) for c in ser.calls()]
+    w = [(c, m.group(1)) for c, m in w if m]
+    r = [(c, _re.match(r"^<(\w+) as .*Deserialize>::deserialize$", c.name)) for c in de.calls()]
+    r = [(c, m.group(1)) for c, m in r if m]
+    R.floor(rid, "scalar writes in ClientID::serialize", len(w), 1)
+    R.floor(rid, "scalar reads in ClientID::deserialize", len(r), 1)
+    if len(w) != 1 or len(r) != 1:
+        R.ob(rid, de, "width", False, "%d scalar writes, %d scalar reads (expected one each)" % (len(w), len(r)))
+        return
+    wt, rt = w[0][1], r[0][1]
+    src = sshow(simp_deep(vs.arg(w[0][0], 0, 8)), 6)
+    R.ob(rid, ser, "writes-get", src == "ClientID::get(self)", "writes %s as %s" % (src, wt), w[0][0].loc())
+    R.ob(rid, de, "width", wt == rt, "reads the %s it writes" % rt if wt == rt else
+         "serialize writes a %s, deserialize reads a %s: ids the writer emits are rejected or truncated by the reader" % (wt, rt), r[0][0].loc())
+    news = de.calls_to("yrs::block::ClientID::new")
+    ok = len(news) == 1 and sshow(simp_deep(vd.arg(news[0], 0, 8)), 8) == "Try>::branch(Deserialize>::deserialize(deserializer)) as Continue.0"
+    R.ob(rid, de, "value", ok, "ClientID::new(the value read)" if ok else "ClientID::new receives %s" %
+         ([sshow(simp_deep(vd.arg(c, 0, 8)), 8) for c in news],), news[0].loc() if news else None)
